@@ -51,8 +51,7 @@ def run(ctx: Ctx) -> None:
             spec = S.gen_spec(ctx.rng, max_feats=ctx.rng.choice([4, 7, 10]), frameworks=(ctx.rng.choice(["pa", "pa", "pd", "py"]),), allow_options=ctx.rng.random() < 0.4)
             kind = "single-fw"
         elif r < 0.75:
-            fws = ctx.rng.choice([("pa", "pd"), ("pa", "py"), ("pa", "pd", "py")])
-            spec = S.gen_spec(ctx.rng, max_feats=5, frameworks=fws, allow_multi_fw=True, allow_options=False, single_parent=True)
+            spec = S.gen_chain_spec(ctx.rng)
             kind = "multi-fw"
         else:
             spec = S.gen_link_spec(ctx.rng, frameworks=("pa",) if ctx.rng.random() < 0.6 else ("pa", "pd", "py"), jointypes=("inner", "left", "outer"))
@@ -73,7 +72,10 @@ def run(ctx: Ctx) -> None:
             DELAYS.clear()
             for g in groups:
                 DELAYS[g] = ctx.rng.choice([0, 0, 0.003, 0.01, 0.025])
+            fl0 = S.FLAKES["hangs_retried"]
             rr = S.run_session(sess, mode)
+            if S.FLAKES["hangs_retried"] != fl0:
+                ctx.note("run hung once and succeeded on retry: " + json.dumps({"spec": spec, "mode": mode, "delays": dict(DELAYS)})[:1500])
             got = outcome(rr, linked)
             obs = S.obs_of(exp, rr.events)
             conc = False
@@ -86,10 +88,14 @@ def run(ctx: Ctx) -> None:
             fclass = None
             if mode == "thread" and overlap:
                 fclass = "threading-overlapping-steps-on-shared-cfw"
+            elif mode == "mp" and any(st["kind"] == "join" and st["left"] == "PythonDictFramework" for st in exp["steps"]):
+                fclass = "multiprocessing-join-on-python-dict"
             elif linked and len(spec["sources"]) >= 3:
                 fclass = "three-sources-non-sync"
             elif mode == "mp" and any(st["kind"] == "tfs" and st["from"] != "PyArrowTable" for st in exp["steps"]):
                 fclass = "multiprocessing-transform-step-from-non-arrow-producer"
+            elif mode == "mp" and S.mp_unuploaded_tfs_source(exp):
+                fclass = "multiprocessing-transform-source-not-uploaded"
             case = {"spec": spec, "mode": mode, "delays": dict(DELAYS), "order": [i for k_, i in obs if k_ == "b"]}
             ctx.case("modes", case, conc or has_js, kind=kind, mode=mode, concurrent=conc, overlap=overlap, outcome=next(iter(got)))
             if got != want:
